@@ -501,6 +501,12 @@ func regC16(add addFn, p pFn) {
 		add(&Instance{Property: "C16", Name: "libdefaults-" + gn, Entry: "config.VH_C16_LibDefaultsRelation", Params: p("group", g, "form", -1), Reach: reach, TimeoutS: 600,
 			Bound: "one relation `key = value` for every " + gn + " key of [libdefaults], arbitrary valid value (bool: one-letter spellings; duration: 1-digit numbers in every format; int: 1-5 digits; string: 2 printable bytes), one blank byte around key and value; all 24 scalar fields and the lengths of the 5 list fields compared with the defaults"})
 	}
+	add(&Instance{Property: "C16", Name: "enctype-list", Entry: "config.VH_C16_EnctypeList", Params: p("sep", 1), Reach: []string{"parsed"}, TimeoutS: 900,
+		Bound: "lists of 2 names from a menu of 18 documented names (enumerated), for the 3 enctype-list keys, separated and surrounded by one arbitrary blank byte"})
+	add(&Instance{Property: "C16", Name: "enctype-list-sep2", Entry: "config.VH_C16_EnctypeList", Params: p("sep", 2), Tier: "thorough", Reach: []string{"parsed"}, TimeoutS: 1500,
+		Bound: "as enctype-list with two blank bytes between the names"})
+	add(&Instance{Property: "C16", Name: "invalid-files", Entry: "config.VH_C16_InvalidFiles", Reach: []string{"rejected"}, TimeoutS: 900,
+		Bound: "4 kinds of structural error (relation without '=' in libdefaults / domain_realm; unmatched closing brace, opening brace without '=' in realms) with an arbitrary 2-letter word, optionally preceded and followed by an unknown section"})
 	for _, ws := range []int{0, 1} {
 		add(&Instance{Property: "C16", Name: "sections-s2-ws" + itoa(ws), Entry: "config.VH_C16_Sections", Params: p("sections", 2, "ws", ws, "lead", ws), Reach: []string{"loaded"}, TimeoutS: 600,
 			Bound: "files of 2 sections in every order (libdefaults/realms/domain_realm at most once, unknown sections named by 1-2 letters), each empty or with one relation, " + itoa(ws) + " blank byte(s) around each header, a 4-byte blank-or-comment line (arbitrary printable text) after every header and relation; regexp matching modelled by NFA simulation of the compiled pattern over ASCII text"})
